@@ -110,6 +110,17 @@ def run(ctx):
                     lines.append("%s\tEQU\t%s" % (n, body.replace("%s", nxt)))
                 for use in ("\tDB\t%s", "\tMOV\tAX, %s", "\tRESB\t%s", "\tJMP\t%s", "\tMOV\tAL, [%s]", "%s_\tEQU\t%s"):
                     add("\n".join(lines) + "\n" + (use.replace("%s", ns[0])) + "\n", "equcycle")
+    # (b'') directives and pseudo-instructions with missing, ill-typed, negative or huge arguments; unknown directives
+    odd = ["[BITS 64]", "[BITS x]", "[BITS]", "[BITS 16", "[FORMAT 1]", "[FORMAT \"ELF\"]", "[FILE]", "[FILE 3]", "[SECTION]", "[SECTION .data]", "[INSTRSET]", "[INSTRSET \"x\"]",
+           "[OPTIMIZE -1]", "[PADSET 1]", "[PADDING 99999999999999999999]", "[ABSOLUTE 0]", "[FOO 1]", "[]", "GLOBAL", "GLOBAL 1", "GLOBAL a,", "EXTERN 1", "EXTERN", "X EQU", "EQU 1", "X EQU X",
+           "X EQU \"s\"", ":", "L1: L2:", "1abc:", "ORG", "ORG AX", "ORG -1", "ORG 0x100000000", "ORG 1, 2", "ALIGNB", "ALIGNB 0", "ALIGNB 3", "ALIGNB -4", "ALIGNB 4294967296", "RESB", "RESB -1",
+           "RESB 99999999999", "RESB AX", "RESB 1, 2", "DB", "DW", "DD 0x", "DB 1,,2", "DB -", "DB (", "DB 1/0", "DB 1%0", "DB 'abc", "DB \"abc", "DB \"\\q\"", "TIMES 3 DB 0", "TIMES", "END", "END x",
+           "RESW 2", "RESD 1", "DQ 1", "DT 1", "ALIGN 4", "MOV", "MOV AX", "MOV AX,1,2,3,4", "JMP", "JMP 1:2:3", "JMP FAR", "JMP SHORT", "JMP NEAR x", "JMP DWORD", "CALL FAR [BX]", "INT", "INT -1",
+           "INT 1,2", "LGDT", "LGDT AX", "LGDT [", "PUSH", "POP 1", "IN", "IN AL", "OUT 1", "RET AX", "$", "$ EQU 1", "MOV AX,$$", "MOV [$],AX", "MOV AX,[BX+SI+DI]", "MOV AX,[BX*2]", "MOV EAX,[ESP*2]",
+           "MOV EAX,[EAX*3]", "MOV EAX,[EAX*16]", "MOV AX,[BX-]", "MOV AX,[]", "MOV AX,[[BX]]", "MOV BYTE WORD [BX],1", "MOV AX,BYTE", "MOV CR9,EAX", "MOV DR0,EAX", "MOV TR3,EAX", "MOV XMM0,XMM1"]
+    for o in odd:
+        for ctxl in ("%s\n", "\t%s\n", "\tORG\t0x7c00\n\tNOP\n\t%s\nfin:\n\tHLT\n", "[BITS 32]\n\t%s\n\tRET\n"):
+            add(ctxl.replace("%s", o), "odd")
     # (c) random bytes and mixtures of valid fragments and bytes
     frags = [ln for s in seeds for ln in s.split("\n") if ln.strip()]
     for _ in range(800 if quick else 20000):
@@ -190,7 +201,7 @@ def run(ctx):
     known = []
     cov = {"evaluations": len(jobs) + sum(len(v) for v in series.values()), "distinct_nontrivial": len({meta[j["id"]][1] for j in jobs}),
            "outcomes": outcomes, "wall_s_running_inputs": round(t_run, 1), "scale_series_seconds": series,
-           "inputs_by_kind": {k: sum(1 for m in meta.values() if m[0] == k) for k in ("matrix", "mutation", "mutation2", "equcycle", "bytes")},
+           "inputs_by_kind": {k: sum(1 for m in meta.values() if m[0] == k) for k in ("matrix", "mutation", "mutation2", "equcycle", "odd", "bytes")},
            "states": sum(s["distinct"] for s in ctx.tlc_stats), "transitions": sum(s["generated"] for s in ctx.tlc_stats),
            "rule": "(a) every mnemonic of the grammar x operand-list shapes from Gen_Matrix.tla (0..3 operands of 16 kinds%s); (b) token-level mutations from Gen_Mut.tla (delete/insert/replace/duplicate/swap tokens, duplicate/delete lines, x %d positions x 34 replacement tokens incl. NUL, CR, braces, 26-digit numbers, empty strings) applied to %d seed programs%s; "
                    "(c) seeded random byte strings and mixtures of valid fragments and bytes; (d) scale series (statements, nesting depth, term count, labels, DB list) at n = %s; distinct = distinct input texts; all are non-trivial in the sense that each is a different input" % (
